@@ -46,6 +46,10 @@ var sourceSpellings = map[string]string{
 	"my-org/thing#release/2.x":    "github.com/my-org/thing-buildkite-plugin#release/2.x",
 	"cache#v1.0.0-rc.1":           "github.com/buildkite-plugins/cache-buildkite-plugin#v1.0.0-rc.1",
 	"monorepo-diff#refs/tags/v1":  "github.com/buildkite-plugins/monorepo-diff-buildkite-plugin#refs/tags/v1",
+	// letter case is kept by the expansion
+	"My-Org/Deployer#v1.0.0":    "github.com/My-Org/Deployer-buildkite-plugin#v1.0.0",
+	"my-org/deployer#Release-1": "github.com/my-org/deployer-buildkite-plugin#Release-1",
+	"docker#V5.12.0":            "github.com/buildkite-plugins/docker-buildkite-plugin#V5.12.0",
 }
 
 func signPayloads(c *engine.Ctx, pl *pipeline.Pipeline, kp *keyPair, repoURL string) ([][]byte, error) {
@@ -568,6 +572,8 @@ func runC14(c *engine.Ctx) {
 								{"null and the text <nil>", gen.Null(), gen.Str("<nil>")},
 								{"null and the text null", gen.Null(), gen.Str("null")},
 								{"true and 1", gen.Bool(true), gen.Int(1)},
+								{"2^64-1 and -1", gen.Uint(18446744073709551615), gen.Int(-1)},
+								{"2^63 and -2^63", gen.Uint(9223372036854775808), gen.Int(-9223372036854775808)},
 							}
 							pr = npairs[c.Sched.Draw(len(npairs), "c14:typed-npair")]
 							pr.name += []string{" as a step env value", " as a matrix value"}[where]
